@@ -239,6 +239,8 @@ def run(ctx, repo):
             ctx.ok({'case': k, 'tool': 'skool2asm', 'lines': len(asm)} if k % 8 == 0 else None)
         bad = None
         for l in asm:
+            if l.startswith(('; header', '; footer', '; second header')):
+                continue          # non-entry blocks are copied as they are
             if len(l) > awidth:
                 if l.startswith(';'):
                     if len(l[1:].split()) > 1:
@@ -307,7 +309,7 @@ def compare(exp, got, addr):
 # ------------------------------------------------------------------------------------------ C18.4 tables and lists (*fold*)
 SHORT = 'A B HL 12 x1 up lo hi on off'.split()
 
-def gen_table(rnd):
+def gen_table(rnd, long_rows=False):
     """-> (macro text without flag, rows) ; rows = list of cells (column index, colspan, words); column 1 is wrappable when `wrap`"""
     ncols = rnd.choice((2, 3))
     wrap = rnd.random() < 0.7
@@ -329,6 +331,8 @@ def gen_table(rnd):
             if c == wcol:
                 vocab = C03pipe.PLAIN[:14] if longw else C03pipe.PLAIN[:12]
                 ws = C03pipe.text(rnd, 8 if span > 1 and wrap else 1, 18 if wrap else 4, vocab).split()
+                if long_rows and r == 0:
+                    ws = C03pipe.text(rnd, 35, 60, vocab).split()          # a row of three or more lines
             elif c == ncols - 1 and rnd.random() < 0.25:
                 ws = []
             else:
@@ -341,8 +345,10 @@ def gen_table(rnd):
     text = text.replace('|  }', '| }').replace('{  |', '{ |')
     return text + ' TABLE#', rows, ncols, wrap
 
-def gen_list(rnd):
+def gen_list(rnd, long_rows=False):
     items = [C03pipe.text(rnd, 1, 22, C03pipe.PLAIN[:14]).split() for _ in range(rnd.randrange(1, 5))]
+    if long_rows:
+        items[0] = C03pipe.text(rnd, 35, 60, C03pipe.PLAIN[:14]).split()
     return '#LIST ' + ' '.join('{ %s }' % ' '.join(ws) for ws in items) + ' LIST#', items
 
 def table_columns(lines, starts):
@@ -386,7 +392,7 @@ def fits(rows, ncols, max_width):
     return 3 * (ncols + 1) - 2 + sum(need) <= max_width
 
 def blocks_rule(ctx, repo):
-    n = 120 if ctx.tier == 'thorough' else 24
+    n = 120 if ctx.tier == 'thorough' else 48
     ctx.rule('C18.4-blocks', '#TABLE / #LIST blocks (plain, <nowrap>, <wrapalign>) in entry descriptions through the folded sna2skool and skool2asm on %d generated inputs: sna2skool keeps every word in order; skool2asm renders a rectangular table whose columns hold the cells\' words in order, within the line width when a column is wrappable; list items keep their words and fit the width' % n, floor=2 * n - 8)
     rnd = random.Random(1804 + ctx.seed)
     P = C04pipe.Both(repo)
@@ -399,11 +405,11 @@ def blocks_rule(ctx, repo):
             ctx.violation(key, where, msg)
     for k in range(n):
         is_table = k % 3 != 2
+        flag = rnd.choice(('', '', '<nowrap>', '<wrapalign>', '<wrapalign>'))
         if is_table:
-            block, rows, ncols, wrap = gen_table(rnd)
+            block, rows, ncols, wrap = gen_table(rnd, flag == '<wrapalign>')
         else:
-            block, items = gen_list(rnd)
-        flag = rnd.choice(('', '', '<nowrap>', '<wrapalign>'))
+            block, items = gen_list(rnd, flag == '<wrapalign>')
         if flag:
             i = block.index(')') + 1 if is_table else len('#LIST')
             if not is_table:
